@@ -1,20 +1,20 @@
 #!/bin/bash
-# usage: confirm_seed.sh <PROP> <name>   (worktree /tmp/mut-<PROP> prepared by a sub-agent)
+# usage: confirm_seed.sh <PROP> <name> [crate]   (worktree /tmp/mut-<PROP> prepared by a sub-agent)
 # Confirms in the scratch worktree that (1) the existing suite passes with the patch, (2) the
 # demonstration fails with the patch and passes without it; stores the seed under /verif/seeded/<name>/.
 set -u
-P=$1; NAME=$2; W=/tmp/mut-$P; p=$(echo $P | tr A-Z a-z)
+P=$1; NAME=$2; CR=${3:-maybenot}; W=/tmp/mut-$P; p=$(echo $P | tr A-Z a-z)
 OUT=/verif/seeded/$NAME; mkdir -p $OUT
 cd $W || exit 2
 export CARGO_NET_OFFLINE=true CARGO_TARGET_DIR=$W/target
-git checkout -q -- . ; rm -f crates/maybenot/tests/demo_$p.rs
+git checkout -q -- . ; rm -f crates/$CR/tests/demo_$p.rs
 git apply OUT/patch.diff || { echo "patch does not apply"; exit 2; }
 suite=$(cargo test --workspace --no-fail-fast --offline 2>&1 | grep -E "^test result" | awk '{p+=$4; f+=$6} END {print p" passed "f" failed"}')
-cp OUT/demo_$p.rs crates/maybenot/tests/demo_$p.rs
-cargo test -p maybenot --test demo_$p --offline > /tmp/demo_with_$P.log 2>&1; with_rc=$?
+cp OUT/demo_$p.rs crates/$CR/tests/demo_$p.rs
+cargo test -p $CR --test demo_$p --offline > /tmp/demo_with_$P.log 2>&1; with_rc=$?
 git checkout -q -- crates
-cargo test -p maybenot --test demo_$p --offline > /tmp/demo_without_$P.log 2>&1; without_rc=$?
-rm -f crates/maybenot/tests/demo_$p.rs
+cargo test -p $CR --test demo_$p --offline > /tmp/demo_without_$P.log 2>&1; without_rc=$?
+rm -f crates/$CR/tests/demo_$p.rs
 echo "suite_with_patch: $suite ; demo with patch rc=$with_rc ; demo without patch rc=$without_rc"
 cp OUT/patch.diff $OUT/patch.diff; cp OUT/demo_$p.rs $OUT/; cp OUT/notes.md $OUT/notes.md
 python3 - "$P" "$NAME" "$suite" "$with_rc" "$without_rc" <<'PY'
@@ -23,6 +23,6 @@ P,NAME,suite,w,wo=sys.argv[1:6]
 json.dump({"breaks_property":P,"name":NAME,
  "source":"independent sub-agent given only the property text and a scratch worktree",
  "confirmed":{"existing_suite_with_patch":suite,"demo_exit_code_with_patch":int(w),"demo_exit_code_without_patch":int(wo),
-   "commands":["git apply patch.diff","cargo test --workspace --no-fail-fast --offline","cargo test -p maybenot --test demo --offline (with and without the patch)"]},
+   "commands":["git apply patch.diff","cargo test --workspace --no-fail-fast --offline","cargo test -p $CR --test demo --offline (with and without the patch)"]},
  "needs_to_manifest":"see notes.md","detected_by":[]},open("/verif/seeded/%s/meta.json"%NAME,"w"),indent=1)
 PY
